@@ -394,6 +394,7 @@ func (vc *VC) preamble() string {
 		b.WriteString("\n")
 	}
 	b.WriteString(spAx)
+	b.WriteString(vc.prefixAxioms())
 	return b.String()
 }
 
